@@ -195,6 +195,16 @@ def run_case(case):
                     where = "direct" if via is None else "relayed-level%d" % lv
                     if h[4] != rid:
                         res.fail("C16/reply-wrong-id", "reply carries ID %d, request was for %d" % (h[4], rid))
+                    # a reply that was not acknowledged at radio level is written again: every copy on air says the same
+                    for e in replies[1:]:
+                        h2 = rfrag.unpack_header(e["pl"])
+                        if (h2[0], h2[1], h2[4], e["pl"][8:10]) != (h[0], h[1], h[4], replies[0]["pl"][8:10]):
+                            res.fail("C16/repeated-reply-differs", "ID %d via 0o%o: first reply (from, to, ID, address) = (%o, %o, %d, %s), a later "
+                                     "copy (%o, %o, %d, %s)" % (rid, via_addr, h[0], h[1], h[4], replies[0]["pl"][8:10].hex(), h2[0], h2[1], h2[4],
+                                                                e["pl"][8:10].hex()))
+                            break
+                    if len({e["pl"] for e in replies}) > 1 or len(replies) > 1:
+                        res.label("reply-repeated-on-air")
                     if h[1] != reply_to:
                         res.fail("C16/reply-misaddressed/" + where, "reply addressed to 0o%o, requester side is 0o%o" % (h[1], reply_to))
                     if not netaddr.is_node_address(addr) or addr in (0, 0o4444):
